@@ -45,20 +45,37 @@ var scriptNoVariants bool
 var scriptClasses = 4
 
 func mkErr(name string, class int) error {
-	alt := !scriptNoVariants && nondetBool(name+".variant")
+	// representatives per class: a bare SMTPError, an error carrying only the
+	// temporary marker, and an SMTPError wrapped with fields the way the real
+	// SMTP/LMTP/remote clients wrap theirs (moduleError)
+	variant := func(n int) int {
+		if scriptNoVariants {
+			return 0
+		}
+		return nondetChoice(name+".variant", n)
+	}
+	wrap := func(err error) error {
+		return exterrors.WithFields(err, map[string]interface{}{"target": "script"})
+	}
 	switch class {
 	case fTemp:
-		if alt {
+		switch variant(3) {
+		case 1:
 			return exterrors.WithTemporary(errors.New(name+": temporary"), true)
+		case 2:
+			return wrap(&exterrors.SMTPError{Code: 451, EnhancedCode: exterrors.EnhancedCode{4, 2, 1}, Message: mkMsg(name, name+": try later")})
 		}
 		return &exterrors.SMTPError{Code: 451, EnhancedCode: exterrors.EnhancedCode{4, 2, 1}, Message: mkMsg(name, name+": try later")}
 	case fPerm:
-		if alt {
+		switch variant(3) {
+		case 1:
 			return exterrors.WithTemporary(errors.New(name+": permanent"), false)
+		case 2:
+			return wrap(&exterrors.SMTPError{Code: 550, EnhancedCode: exterrors.EnhancedCode{5, 1, 1}, Message: mkMsg(name, name+": rejected")})
 		}
 		return &exterrors.SMTPError{Code: 550, EnhancedCode: exterrors.EnhancedCode{5, 1, 1}, Message: mkMsg(name, name+": rejected")}
 	case fUnspec:
-		if alt {
+		if variant(2) != 0 {
 			return fmt.Errorf("%s: wrapped: %w", name, errors.New("io failure"))
 		}
 		return errors.New(name + ": unclassified")
